@@ -54,6 +54,7 @@ def canary_wrap_keeps_flag(vc):
 
 HARNESSES = SS.SEND_SD_OBLIGATIONS + [C17.ob_notify_single] + [
     SS.ob_assign_outgoing_refines,
+    SS.ob_assign_outgoing_twice,
     ob_lemma_sequence_base,
     ob_lemma_sequence_step,
     ob_lemma_independent_destinations,
